@@ -45,9 +45,12 @@ class Connection:
       if previous.virtual and \
           (isinstance(previous, gfapy.line.Unknown) or
            previous.record_type == self.record_type):
-        return self._substitute_virtual_line(previous)
+        retval = self._substitute_virtual_line(previous)
       else:
-        return self._process_not_unique(previous)
+        retval = self._process_not_unique(previous)
+      if self.is_connected():
+        self._set_reference_orientations_editable(False)
+      return retval
     else:
       self._gfa = gfa
       try:
@@ -56,7 +59,25 @@ class Connection:
       except:
         self._rollback_connect()
         raise
+      self._set_reference_orientations_editable(False)
       return None
+
+  def _set_reference_orientations_editable(self, editable):
+    """
+    The orientations in the reference fields of a connected line cannot be
+    edited in place (as the fields themselves cannot be set).
+    """
+    def walk(value):
+      if isinstance(value, gfapy.OrientedLine):
+        if editable:
+          value._unblock_orient()
+        else:
+          value._block_orient()
+      elif isinstance(value, list):
+        for elem in value:
+          walk(elem)
+    for k in self.__class__.REFERENCE_FIELDS:
+      walk(self._data.get(k))
 
   def _check_not_self_referencing(self):
     """
